@@ -145,8 +145,8 @@ class GroundedPredicate(Predicate):
         """
         return GroundedPredicate(
             self.name,
-            self.signature,
-            self.object_mapping,
+            self.signature.copy(),
+            self.object_mapping.copy(),
             self.is_positive if not is_negated else not self.is_positive,
         )
 
